@@ -2,6 +2,7 @@ package engnode
 
 import (
 	"context"
+	"sync/atomic"
 	"time"
 
 	"github.com/drand/drand/v2/common"
@@ -66,24 +67,38 @@ type EmitObs struct {
 	Valid bool // the partial verifies for (round, prev) under the node's own index
 }
 
+var dbgTimes map[string]time.Duration
+var dbgCount = map[string]int{}
+
 type runner struct {
-	emitMult  map[int]int // multiplicity of emission i already reported
-	w         *World
-	t         *ids
-	now0      int64
-	ticking   bool
-	nPuts     int
-	nEmits    int
-	nSyncs    int
-	settleMs  int
-	stopped   bool
-	tickRound uint64        // round of the last tick delivered to the run loop
-	syncGoal  func() uint64 // how far a sync can get (nil: the current round)
-	holding   bool          // ticks are held back
-	lastStale int64         // round of the stale tick delivered by the last release (0: none)
+	emitMult    map[int]int // multiplicity of emission i already reported
+	w           *World
+	t           *ids
+	now0        int64
+	ticking     bool
+	nPuts       int
+	nEmits      int
+	nSyncs      int
+	settleMs    int
+	stopped     bool
+	tickRound   uint64        // round of the last tick delivered to the run loop
+	syncGoal    func() uint64 // how far a sync can get (nil: the current round)
+	holding     bool          // ticks are held back
+	expDeclines int           // ticks of this event that will be handled without a broadcast
+	declines0   int64
+	lastStale   int64 // round of the stale tick delivered by the last release (0: none)
 
 	lastPrev, lastSig []byte
 	lastTarget        int64
+}
+
+// tickTarget: the round a tick of round tr makes the node sign on its current head.
+func (r *runner) tickTarget(tr uint64) uint64 {
+	h := r.w.Head()
+	if h == tr {
+		return tr
+	}
+	return h + 1
 }
 
 // totals returns (#puts, total emission sends, #sync calls).
@@ -130,6 +145,13 @@ func (r *runner) settle(expEmits int, expSync bool, sends0, syncs0 int) {
 	if r.stopped {
 		time.Sleep(2 * time.Millisecond)
 		return
+	}
+	if r.expDeclines > 0 {
+		// a tick whose target round is ahead of the clock is handled without a broadcast: the guard's
+		// warning is the trace
+		want := r.declines0 + int64(r.expDeclines)
+		waitFor(func() bool { return atomic.LoadInt64(&r.w.declines) >= want }, 4*time.Second)
+		r.expDeclines = 0
 	}
 	if expEmits > 0 && peers > 0 {
 		waitFor(func() bool { _, tot, _ := r.totals(); return tot >= sends0+expEmits*peers }, 4*time.Second)
@@ -198,6 +220,7 @@ func (r *runner) Do(ev Event) Obs {
 	ctx := context.Background()
 	_, sends0, syncs0 := r.totals()
 	expEmits, expSync := 0, false
+	r.declines0 = atomic.LoadInt64(&w.declines)
 	o.HeadBefore = w.Head()
 	switch ev.Kind {
 	case "start":
@@ -208,10 +231,15 @@ func (r *runner) Do(ev Event) Obs {
 		old, nw := w.Now(), w.Now()+ev.D
 		if !r.stopped {
 			expEmits = w.CClock.dueBy(time.Unix(nw, 0))
-			if nw >= w.Genesis && r.ticking {
+			if nw >= w.Genesis && r.ticking && !r.holding {
 				k := (nw - w.Genesis) / w.Period
 				if tt := w.Genesis + k*w.Period; tt > old {
-					expEmits++
+					// the tick signs head+1 (or re-signs the ticked round) unless that round is ahead of the clock
+					if r.tickTarget(uint64(k+1)) <= uint64(k+1) {
+						expEmits++
+					} else {
+						r.expDeclines++
+					}
 					if w.Head()+1 < uint64(k+1) {
 						expSync = true
 					}
@@ -226,7 +254,11 @@ func (r *runner) Do(ev Event) Obs {
 		r.holding = false
 		if t := w.CClock.release(); !t.IsZero() {
 			r.lastStale = int64(common.CurrentRound(t.Unix(), time.Duration(w.Period)*time.Second, w.Genesis))
-			expEmits = 1
+			if r.tickTarget(uint64(r.lastStale)) <= w.CurrentRound() {
+				expEmits = 1
+			} else {
+				r.expDeclines++
+			}
 			if w.Head()+1 < uint64(r.lastStale) {
 				expSync = true
 			}
@@ -311,7 +343,19 @@ func (r *runner) Do(ev Event) Obs {
 		_, err := w.H.ProcessPartialBeacon(ctx, pkt)
 		o.Rejected = err != nil
 	}
+	t0dbg := time.Now()
 	r.settle(expEmits, expSync, sends0, syncs0)
+	if dbgTimes != nil {
+		k := ev.Kind
+		if expSync {
+			k += "+sync"
+		}
+		if expEmits > 0 {
+			k += "+emit"
+		}
+		dbgTimes[k] += time.Since(t0dbg)
+		dbgCount[k]++
+	}
 	puts := w.Rec.snapshot()
 	for _, p := range puts[r.nPuts:] {
 		p := p
